@@ -53,9 +53,10 @@ not so at first; the misses drove these additions:
   twice, so a generator or iterator argument lost elements) → the IPSet register machine hands every bulk argument over as
   list, tuple, generator or one-shot iterator (chosen by a hash of the case), later also `cidr_merge` in C05; `C08_r3_3`
   (EUI slice indexing) → the lifecycle observer of an EUI reads a family of slices and compares them with the items;
-  `C13_r3_3` (an `IPRange` given to `spanning_cidr`/`iter_iprange` as a sequence) → that form added to the C13 adapter;
+  `C13_r3_3` (an `IPRange.__iter__` that re-detects the family from bare integers, so a low IPv6 range iterates as IPv4) →
+  an `IPRange` object is handed to `spanning_cidr` as the sequence in the C13 adapter;
   `C01_r3_3` (an exact-type test `type(addr) is str` replacing `isinstance`) → a quarter of the C01 texts are passed as a
-  `str` subclass; `C17_r3_2` (integer bounds to `iprange_to_globs` mishandled) → the adapter demands the same globs from
+  `str` subclass; `C17_r3_2` (bounds of `iprange_to_globs` parsed with `IPNetwork()`, which refuses the integer form) → the adapter demands the same globs from
   string bounds, integer bounds and IPAddress bounds.  The same idea was then applied where no seed asked for it (CIDR-string
   and IPAddress arguments of `cidr_partition`/`cidr_exclude` in C09).
 
